@@ -45,6 +45,10 @@ pub enum Creator {
   JustAmbInterval,
   IntervalTakeUntilJust,
   ErrorMergeInterval,
+  /// the crate's own unbounded producers run on a scheduler's worker: they must stop pulling when the
+  /// subscription has ended (a job that never returns keeps its worker for ever)
+  EndlessFromIterSubscribeOn,
+  EndlessRepeatSubscribeOn,
 }
 
 #[derive(Clone, Copy, Debug, PartialEq)]
@@ -74,12 +78,14 @@ fn applicable(c: Creator, e: Ending) -> bool {
     (Interval | Timer | IntervalFlatMapObserveOn | IntervalSampleInterval | IntervalPublish | IntervalDelay | IntervalRefCount | IntervalReplay | StartWithIntervalRefCount | StartWithIntervalReplay, SourceError | Retry2) => false,
     (Interval | IntervalFlatMapObserveOn | IntervalSampleInterval | IntervalPublish | IntervalDelay | IntervalRefCount | IntervalReplay | StartWithIntervalRefCount | StartWithIntervalReplay, SourceComplete) => false,
     (IntervalPublish, Take1 | First | TakeUntilTimer | AmbNever) => false,
-    (c, Contains | ElementAt | TakeWhile | All) => matches!(c, Interval | HotObserveOn | ColdObserveOn | ColdSubscribeOn | IntervalRefCount),
+    (EndlessFromIterSubscribeOn | EndlessRepeatSubscribeOn, e) if !matches!(e, Take1 | First | ElementAt | Contains) => false,
+    (c, Contains | ElementAt | TakeWhile | All) => matches!(c, Interval | HotObserveOn | ColdObserveOn | ColdSubscribeOn | IntervalRefCount | EndlessFromIterSubscribeOn | EndlessRepeatSubscribeOn),
     (HotDebounceFeedback | HotObserveOnFeedback, Retry2 | TakeUntilTimer | AmbNever | First) => false,
     (TimerNotYetFired | IntervalNotYetFired, e) => e == Unsubscribe,
     (JustTakeUntilTimer | JustSampleInterval, e) => matches!(e, SourceComplete | Unsubscribe),
     (JustAmbInterval | IntervalTakeUntilJust, e) => e == SourceComplete,
     (ErrorMergeInterval, e) => e == SourceError,
+    (EndlessFromIterSubscribeOn | EndlessRepeatSubscribeOn, e) => matches!(e, Take1 | First | ElementAt | Contains),
     _ => true,
   }
 }
@@ -117,6 +123,8 @@ fn create(c: Creator, causes: &Causes) -> Built {
     Creator::Timer => Built { o: observables::timer(ms(10), nt()).map(|_| 0), hot: None, connect: None },
     Creator::HotObserveOn => Built { o: hot.observable().observe_on(nt()), hot: Some(hot), connect: None },
     Creator::ColdSubscribeOn => Built { o: cold().subscribe_on(nt()), hot: None, connect: None },
+    Creator::EndlessFromIterSubscribeOn => Built { o: observables::from_iter(1i64..).subscribe_on(nt()), hot: None, connect: None },
+    Creator::EndlessRepeatSubscribeOn => Built { o: observables::repeat(1i64).subscribe_on(nt()), hot: None, connect: None },
     Creator::HotDebounce => Built { o: hot.observable().debounce(ms(10), nt()), hot: Some(hot), connect: None },
     Creator::HotTimeout => Built { o: hot.observable().timeout(ms(40), nt()), hot: Some(hot), connect: None },
     Creator::IntervalFlatMapObserveOn => {
@@ -264,7 +272,7 @@ pub fn exit_scn(c: Creator, e: Ending, twice: bool, q: Option<u32>, t: Option<u3
 pub fn c15_scenarios() -> Vec<Scn> {
   use Creator::*;
   use Ending::*;
-  let creators = [Interval, Timer, HotObserveOn, ColdSubscribeOn, ColdObserveOn, HotDebounce, HotTimeout, IntervalFlatMapObserveOn, ColdObserveOnTwice, IntervalSampleInterval, IntervalPublish, IntervalDelay, IntervalRefCount, IntervalReplay, StartWithIntervalRefCount, StartWithIntervalReplay, HotDebounceFeedback, HotObserveOnFeedback, TimerNotYetFired, IntervalNotYetFired, JustTakeUntilTimer, JustSampleInterval, JustAmbInterval, IntervalTakeUntilJust, ErrorMergeInterval];
+  let creators = [Interval, Timer, HotObserveOn, ColdSubscribeOn, ColdObserveOn, HotDebounce, HotTimeout, IntervalFlatMapObserveOn, ColdObserveOnTwice, IntervalSampleInterval, IntervalPublish, IntervalDelay, IntervalRefCount, IntervalReplay, StartWithIntervalRefCount, StartWithIntervalReplay, HotDebounceFeedback, HotObserveOnFeedback, TimerNotYetFired, IntervalNotYetFired, JustTakeUntilTimer, JustSampleInterval, JustAmbInterval, IntervalTakeUntilJust, ErrorMergeInterval, EndlessFromIterSubscribeOn, EndlessRepeatSubscribeOn];
   let endings = [SourceComplete, SourceError, Unsubscribe, Take1, First, TakeUntilTimer, AmbNever, Retry2, Contains, ElementAt, TakeWhile, All];
   let mut v = vec![];
   for c in creators {
@@ -278,7 +286,7 @@ pub fn c15_scenarios() -> Vec<Scn> {
       } else if matches!((c, e), (HotObserveOn, Retry2) | (HotTimeout, Retry2) | (HotDebounce, Retry2)) {
         // a re-subscription on the worker thread racing the unsubscribe
         Some(2)
-      } else if matches!(e, Unsubscribe | Take1 | Contains | ElementAt | TakeWhile | All) || matches!(c, JustTakeUntilTimer | JustSampleInterval | JustAmbInterval | IntervalTakeUntilJust | ErrorMergeInterval) {
+      } else if matches!(e, Unsubscribe | Take1 | Contains | ElementAt | TakeWhile | All) || matches!(c, JustTakeUntilTimer | JustSampleInterval | JustAmbInterval | IntervalTakeUntilJust | ErrorMergeInterval | EndlessFromIterSubscribeOn | EndlessRepeatSubscribeOn) {
         Some(1)
       } else {
         None
@@ -410,6 +418,46 @@ pub fn c16_scenarios() -> Vec<Scn> {
       },
     ));
   }
+  // a period below one millisecond (a unit-conversion slip shows here: seed C16-i), read in microseconds
+  v.push(time_scn(
+    "c16/interval(300us) unsubscribed at 1000us",
+    Some(2),
+    Some(3),
+    move |rec, _| {
+      let sub = rec.subscribe(&observables::interval(std::time::Duration::from_micros(300), nt()), |x| x as i64);
+      thread::sleep(std::time::Duration::from_micros(1000));
+      sub.unsubscribe();
+    },
+    move |_, rec, _| {
+      let got: Vec<(EvK, u64)> = rec.events().iter().map(|e| (e.k.clone(), e.vt / 1000)).collect();
+      let want = vec![(EvK::Next(0), 300), (EvK::Next(1), 600), (EvK::Next(2), 900)];
+      if got != want {
+        vec![viol("interval-off-the-clock", format!("got {:?}, want {:?} (event, microseconds)", got, want))]
+      } else {
+        vec![]
+      }
+    },
+  ));
+  v.push(time_scn(
+    "c16/timeout(300us): an item at 0, then silence",
+    Some(2),
+    Some(3),
+    move |rec, _| {
+      let hot = Hot::<i64>::new();
+      let _sub = rec.subscribe(&hot.observable().timeout(std::time::Duration::from_micros(300), nt()), |x| x);
+      hot.next(1);
+      thread::sleep(std::time::Duration::from_micros(2000));
+    },
+    move |_, rec, _| {
+      let got: Vec<(EvK, u64)> = rec.events().iter().map(|e| (e.k.clone(), e.vt / 1000)).collect();
+      let ok = got.len() == 2 && got[0] == (EvK::Next(1), 0) && matches!(got[1], (EvK::Error(-110), 300));
+      if !ok {
+        vec![viol("timeout-off-the-clock", format!("got {:?}, want n1 at 0 and TimedOut (Error(-110)) at 300 microseconds", got))]
+      } else {
+        vec![]
+      }
+    },
+  ));
   // interval on the default (synchronous) scheduler: ticks on the subscribing thread until take(n) ends it
   v.push(time_scn(
     "c16/interval(10ms, default scheduler).take(3) on the subscribing thread",
